@@ -35,6 +35,10 @@ type Recorder struct {
 	// response is discarded after the server has handled the request and a
 	// transport error is returned to the client ("response lost").
 	dropNext func(method string, req proto.Message) bool
+	// inflight: if set, called after the server has handled the request and
+	// before the client sees the response (or its loss): the window in which
+	// a real application goes on editing while a sync is in flight.
+	inflight func(method string, req proto.Message)
 }
 
 var (
@@ -60,6 +64,13 @@ func (r *Recorder) SetSink(f func(*Exchange)) {
 	r.mu.Lock()
 	defer r.mu.Unlock()
 	r.sink = f
+}
+
+// SetInflight installs the in-flight callback (nil = off).
+func (r *Recorder) SetInflight(f func(method string, req proto.Message)) {
+	r.mu.Lock()
+	defer r.mu.Unlock()
+	r.inflight = f
 }
 
 // SetDrop installs a response-dropping predicate (nil = off).
@@ -90,9 +101,9 @@ func newMessages(method string) (proto.Message, proto.Message) {
 // RoundTrip implements http.RoundTripper.
 func (r *Recorder) RoundTrip(req *http.Request) (*http.Response, error) {
 	r.mu.Lock()
-	sink, drop := r.sink, r.dropNext
+	sink, drop, inflight := r.sink, r.dropNext, r.inflight
 	r.mu.Unlock()
-	if (sink == nil && drop == nil) || !strings.HasPrefix(req.URL.Path, "/yorkie.v1.YorkieService/") ||
+	if (sink == nil && drop == nil && inflight == nil) || !strings.HasPrefix(req.URL.Path, "/yorkie.v1.YorkieService/") ||
 		req.Header.Get("Content-Type") != "application/proto" {
 		return r.inner.RoundTrip(req)
 	}
@@ -123,6 +134,9 @@ func (r *Recorder) RoundTrip(req *http.Request) (*http.Response, error) {
 	_ = resp.Body.Close()
 	if err != nil {
 		return nil, err
+	}
+	if inflight != nil {
+		inflight(method, pbReq)
 	}
 	ex := &Exchange{Method: method, Req: pbReq, HTTPCode: resp.StatusCode}
 	if resp.StatusCode == http.StatusOK {
